@@ -7,14 +7,14 @@ RULE = ("one case = one seed = (generated spec with 2-8 inline/builtin meshes, 1
         "policy random/sticky/PCT/starve, basic-block preemption 0/0.01%/0.1%/1%, spurious condition-variable wake-ups); reference bytes = "
         "mj_saveModel of the usethread=0 compile; then, under the case's schedule: usethread=1 compile, second compile of the same spec, "
         "mj_copySpec compiled threaded and unthreaded, mj_copyModel, mj_recompile on a stepped mjData (model bytes + bit-identical time/qpos/"
-        "qvel/act/ctrl), threaded compile of a re-parsed spec; every model must be byte-identical to the reference (the recorded fusestatic findings are counted in-driver for the steps that "
+        "qvel/act/ctrl), threaded compile of a re-parsed spec, and (half of the cases) a spec edit through the mjs API (new hinged body, new static geom) followed by mj_recompile in place: sizes, time, qpos/qvel/act/ctrl of everything that still exists bit-identical, new joint at qpos0, model identical to a fresh compile of a copy of the edited spec; every model must be byte-identical to the reference (the recorded fusestatic findings are counted in-driver for the steps that "
         "re-use a compiled fusestatic spec, nothing else is tolerated); a case is non-trivial when "
         ">=2 simulated threads were runnable at once; distinct = distinct hash of the scheduling trace")
 ASSUME = [
     "mesh files are binary MSH buffers in a VFS (OBJ/STL decoders are plugins outside the build); the global asset cache is in play and is emptied before each case and before a seeded subset of its steps",
     "qhull, lodepng and MarchingCubes are stand-ins (the hull stand-in is a deterministic incremental hull): the property checked is schedule- and copy-independence of whatever the tree computes, not mesh content",
     "sequentially consistent execution; unsynchronised accesses in the compiler are found by the TSan-in-the-loop stage",
-    "mj_recompile is exercised with an unchanged spec (state components all still exist)",
+    "mj_recompile is exercised with an unchanged spec and with one additive edit (a new body appended to the world, so every earlier state component still exists at its old address)",
 ]
 
 
@@ -23,4 +23,4 @@ def run(tier):
         plan = [dict(variant="sim", runs=1600, label="sim", timeout=280), dict(variant="simtsan", runs=320, label="simtsan", timeout=280)]
     else:
         plan = [dict(variant="sim", runs=200000, label="sim", timeout=3400), dict(variant="simtsan", runs=30000, label="simtsan", timeout=3400)]
-    return e1.run_e1("C33", tier, "c33.cc", plan, nops=5, rule=RULE, assumptions=ASSUME, design_ref="3/C33")
+    return e1.run_e1("C33", tier, "c33.cc", plan, nops=6, rule=RULE, assumptions=ASSUME, design_ref="3/C33")
